@@ -272,7 +272,9 @@ def k4_siblings(F, R, ops):
         fn = sg.entry_fn
         if 'Result' not in fn.get('sig', ''):
             continue
-        conv = [m for m in sg.all_calls(lambda d: d.get('fn', '').endswith('::into') or 'From<device::blk::RespStatus>' in (d.get('resolved') or '') or 'RespStatus' in ' '.join(d.get('substs', [])))]
+        conv = [m for m in sg.all_calls(lambda d: d.get('fn', '').endswith('::into') or 'From<device::blk::RespStatus>' in (d.get('resolved') or '') or 'RespStatus' in ' '.join(d.get('substs', []))
+                                          # ... or a method of the status type itself that yields the Result (to_result())
+                                          or ((F.bodies.get(d.get('fn'), {}).get('impl_adt') or '').endswith('RespStatus') and 'Result' in F.bodies[d['fn']].get('sig', '')))]
         if name.endswith('_nb'):
             continue
         ok = False
